@@ -445,3 +445,174 @@ example : kahn [0, 1, 2] [(0, 1), (1, 2), (0, 2)] = .ok [0, 1, 2] := by decide
 example : kahn [0, 1, 2] [(0, 1), (1, 2), (2, 1)] = .cycle := by decide
 example : kahn [0, 1] [(0, 1), (1, 0)] = .cycle := by decide     -- no entry at all
 example : effParents 5 (concatMultiInputs [0, 1, 2] [(0, 2), (1, 2)] 0).1.edges 2 = [0, 1] := by decide
+
+/-! ### Concat insertion, the whole pass -/
+
+/-- `omega` does not look through the abbreviation `Node := Nat` in the type of an equation -/
+macro "nomega" : tactic => `(tactic| ((try simp only [Node] at *); omega))
+
+theorem mem_parentsOf {es : List Edge} {m p : Node} : p ∈ parentsOf es m ↔ (p, m) ∈ es := by
+  simp only [parentsOf, List.mem_map, List.mem_filter, beq_iff_eq]
+  constructor
+  · rintro ⟨⟨a, b⟩, ⟨h, rfl⟩, rfl⟩; exact h
+  · intro h; exact ⟨(p, m), ⟨h, rfl⟩, rfl⟩
+
+/-- what is true of the edges built so far, for Concat ids `concatBase + k`, `lo ≤ k < hi`, handed out while processing
+    the nodes `S` -/
+structure ConcatInv (es : List Edge) (lo hi : Nat) (S : List Node) (new : List Edge) : Prop where
+  targets : ∀ e ∈ new, (∃ k, lo ≤ k ∧ k < hi ∧ e.2 = concatBase + k) ∨ e.2 < concatBase
+  sources : ∀ e ∈ new, (∃ k, lo ≤ k ∧ k < hi ∧ e.1 = concatBase + k) ∨ e.1 < concatBase + lo
+  own : ∀ k, lo ≤ k → k < hi → ∃ v ∈ S, (dedup (parentsOf es v)).length > 1 ∧
+      (∀ e ∈ new, e.2 = concatBase + k → e.1 ∈ dedup (parentsOf es v)) ∧
+      (∀ p ∈ dedup (parentsOf es v), (p, concatBase + k) ∈ new) ∧
+      (∀ e ∈ new, e.1 = concatBase + k → e.2 = v) ∧
+      (concatBase + k, v) ∈ new
+
+theorem concatInv_step (es : List Edge) (lo : Nat) (hfresh : ∀ e ∈ es, e.1 < concatBase + lo)
+    (ns : List Node) (new : List Edge) (hi : Nat) (S : List Node) (v : Node) (hv : v < concatBase) (hlo : lo ≤ hi)
+    (inv : ConcatInv es lo hi S new) :
+    ConcatInv es lo (concatStep es (ns, new, hi) v).2.2 (S ++ [v]) (concatStep es (ns, new, hi) v).2.1 := by
+  have hvc : isConcat v = false := by simp [isConcat]; omega
+  have hps : ∀ p ∈ dedup (parentsOf es v), p < concatBase + lo := by
+    intro p hp
+    have := mem_parentsOf.mp ((mem_dedup _ _).mp hp)
+    exact hfresh _ this
+  by_cases hm : (dedup (parentsOf es v)).length > 1
+  · -- a Concat is inserted
+    have key := fun e => ((C03_concat_step es ns new hi v e).2.1 ⟨hm, hvc⟩)
+    have hnext : (concatStep es (ns, new, hi) v).2.2 = hi + 1 := (key (0, 0)).1
+    have hmem : ∀ e, e ∈ (concatStep es (ns, new, hi) v).2.1 ↔
+        e ∈ new ∨ (e.2 = concatBase + hi ∧ e.1 ∈ dedup (parentsOf es v)) ∨ e = (concatBase + hi, v) :=
+      fun e => (key e).2
+    rw [hnext]
+    refine ⟨?_, ?_, ?_⟩
+    · intro e he
+      rcases (hmem e).mp he with h | ⟨h, _⟩ | rfl
+      · rcases inv.targets e h with ⟨k, h1, h2, h3⟩ | h'
+        · exact Or.inl ⟨k, h1, by nomega, h3⟩
+        · exact Or.inr h'
+      · exact Or.inl ⟨hi, hlo, by nomega, h⟩
+      · exact Or.inr hv
+    · intro e he
+      rcases (hmem e).mp he with h | ⟨_, h⟩ | rfl
+      · rcases inv.sources e h with ⟨k, h1, h2, h3⟩ | h'
+        · exact Or.inl ⟨k, h1, by nomega, h3⟩
+        · exact Or.inr h'
+      · exact Or.inr (hps _ h)
+      · exact Or.inl ⟨hi, hlo, by nomega, rfl⟩
+    · intro k hk1 hk2
+      by_cases hk : k < hi
+      · obtain ⟨w, hw, hwm, hA, hB, hC, hD⟩ := inv.own k hk1 hk
+        refine ⟨w, List.mem_append_left _ hw, hwm, ?_, ?_, ?_, ?_⟩
+        · intro e he het
+          rcases (hmem e).mp he with h | ⟨h, _⟩ | rfl
+          · exact hA e h het
+          · nomega
+          · simp at het; nomega
+        · intro p hp; exact (hmem _).mpr (Or.inl (hB p hp))
+        · intro e he hes
+          rcases (hmem e).mp he with h | ⟨_, h⟩ | rfl
+          · exact hC e h hes
+          · have := hps _ h; nomega
+          · simp at hes; nomega
+        · exact (hmem _).mpr (Or.inl hD)
+      · have hk' : k = hi := by nomega
+        subst hk'
+        refine ⟨v, List.mem_append_right _ (List.mem_singleton.mpr rfl), hm, ?_, ?_, ?_, ?_⟩
+        · intro e he het
+          rcases (hmem e).mp he with h | ⟨_, h⟩ | rfl
+          · rcases inv.targets e h with ⟨k', _, h2, h3⟩ | h'
+            · nomega
+            · nomega
+          · exact h
+          · simp at het; nomega
+        · intro p hp; exact (hmem _).mpr (Or.inr (Or.inl ⟨rfl, hp⟩))
+        · intro e he hes
+          rcases (hmem e).mp he with h | ⟨_, h⟩ | rfl
+          · rcases inv.sources e h with ⟨k', _, h2, h3⟩ | h'
+            · nomega
+            · nomega
+          · have := hps _ h; nomega
+          · rfl
+        · exact (hmem _).mpr (Or.inr (Or.inr rfl))
+  · -- no Concat for this node
+    have hn : ¬((dedup (parentsOf es v)).length > 1 ∧ isConcat v = false) := fun h => hm h.1
+    have key := fun e => ((C03_concat_step es ns new hi v e).2.2 hn)
+    have hnext : (concatStep es (ns, new, hi) v).2.2 = hi := (key (0, 0)).1
+    have hmem : ∀ e, e ∈ (concatStep es (ns, new, hi) v).2.1 ↔
+        e ∈ new ∨ (e.2 = v ∧ e.1 ∈ dedup (parentsOf es v)) := fun e => (key e).2
+    rw [hnext]
+    refine ⟨?_, ?_, ?_⟩
+    · intro e he
+      rcases (hmem e).mp he with h | ⟨h, _⟩
+      · exact inv.targets e h
+      · exact Or.inr (by rw [h]; exact hv)
+    · intro e he
+      rcases (hmem e).mp he with h | ⟨_, h⟩
+      · exact inv.sources e h
+      · exact Or.inr (hps _ h)
+    · intro k hk1 hk2
+      obtain ⟨w, hw, hwm, hA, hB, hC, hD⟩ := inv.own k hk1 hk2
+      refine ⟨w, List.mem_append_left _ hw, hwm, ?_, ?_, ?_, ?_⟩
+      · intro e he het
+        rcases (hmem e).mp he with h | ⟨h, _⟩
+        · exact hA e h het
+        · nomega
+      · intro p hp; exact (hmem _).mpr (Or.inl (hB p hp))
+      · intro e he hes
+        rcases (hmem e).mp he with h | ⟨_, h⟩
+        · exact hC e h hes
+        · have := hps _ h; nomega
+      · exact (hmem _).mpr (Or.inl hD)
+
+theorem concatStep_next_ge (es : List Edge) (ns : List Node) (new : List Edge) (hi : Nat) (v : Node) :
+    hi ≤ (concatStep es (ns, new, hi) v).2.2 := by
+  unfold concatStep
+  simp only
+  split <;> simp
+
+theorem concatInv_fold (es : List Edge) (lo : Nat) (hfresh : ∀ e ∈ es, e.1 < concatBase + lo) :
+    ∀ (vs : List Node) (hvs : ∀ v ∈ vs, v < concatBase) (ns : List Node) (new : List Edge) (hi : Nat) (S : List Node)
+      (hlo : lo ≤ hi) (inv : ConcatInv es lo hi S new),
+      ConcatInv es lo (vs.foldl (concatStep es) (ns, new, hi)).2.2 (S ++ vs) (vs.foldl (concatStep es) (ns, new, hi)).2.1 := by
+  intro vs
+  induction vs with
+  | nil => intro _ ns new hi S _ inv; simpa using inv
+  | cons v vs ih =>
+    intro hvs ns new hi S hlo inv
+    simp only [List.foldl_cons]
+    have hv := hvs v (List.mem_cons_self ..)
+    have hvs' : ∀ w ∈ vs, w < concatBase := fun w hw => hvs w (List.mem_cons_of_mem _ hw)
+    have step := concatInv_step es lo hfresh ns new hi S v hv hlo inv
+    have hge := concatStep_next_ge es ns new hi v
+    have := ih hvs' (concatStep es (ns, new, hi) v).1 (concatStep es (ns, new, hi) v).2.1
+      (concatStep es (ns, new, hi) v).2.2 (S ++ [v]) (by omega) step
+    simpa [List.append_assoc] using this
+
+/-- **Concat insertion, the whole pass** (`concat_multi_inputs` over all the nodes of a model). Every Concat handed out
+    by the pass feeds exactly ONE node, and gathers exactly that node's (distinct) predecessors - no more, no fewer -
+    whatever the order in which the nodes are visited and however their predecessor sets overlap or nest. Hypotheses:
+    the user's nodes are not Concat ids, and the ids the counter hands out are fresh w.r.t. the edges given. -/
+theorem C03_concat_pass (nodes : List Node) (es : List Edge) (next : Nat)
+    (hn : ∀ v ∈ nodes, v < concatBase) (hfresh : ∀ e ∈ es, e.1 < concatBase + next) (k : Nat)
+    (hk1 : next ≤ k) (hk2 : k < (concatMultiInputs nodes es next).2) :
+    let g := (concatMultiInputs nodes es next).1
+    ∃ v ∈ nodes, (dedup (parentsOf es v)).length > 1 ∧
+      (∀ e ∈ g.edges, e.2 = concatBase + k → e.1 ∈ dedup (parentsOf es v)) ∧
+      (∀ p ∈ dedup (parentsOf es v), (p, concatBase + k) ∈ g.edges) ∧
+      (∀ e ∈ g.edges, e.1 = concatBase + k → e.2 = v) ∧
+      (concatBase + k, v) ∈ g.edges := by
+  intro g
+  have h0 : ConcatInv es next next [] [] :=
+    ⟨by intro e he; simp at he, by intro e he; simp at he, by intro k h1 h2; omega⟩
+  have hvs : ∀ v ∈ dedup nodes, v < concatBase := fun v hv => hn v ((mem_dedup _ _).mp hv)
+  have inv := concatInv_fold es next hfresh (dedup nodes) hvs [] [] next [] (Nat.le_refl _) h0
+  obtain ⟨v, hv, rest⟩ := inv.own k hk1 hk2
+  simp only [List.nil_append] at hv
+  exact ⟨v, (mem_dedup _ _).mp hv, rest⟩
+
+/-- the nested fan-in graph of the seeded change C02-H: `wide ← {a, b, e}` (visited first), `narrow ← {a, b}`: two
+    Concats, the second one gathering a and b only -/
+example : (concatMultiInputs [0, 1, 2, 3, 4] [(0, 3), (1, 3), (2, 3), (0, 4), (1, 4)] 0).2 = 2
+    ∧ parentsOf (concatMultiInputs [0, 1, 2, 3, 4] [(0, 3), (1, 3), (2, 3), (0, 4), (1, 4)] 0).1.edges (concatBase + 1) = [0, 1] := by
+  decide
